@@ -18,7 +18,7 @@ TRUSTED = ("object identity is a fact about CPython allocation: it is observed (
 
 def run(ctx):
     g = gtirb_from_repo.load()
-    ctx.scope = {"allow": ("roundtrip:aux-identity", "roundtrip:identity", "roundtrip:load-raised", "accepted:", "wrong-class:", "reader:incoherent", "reader:hang", "reader:outcome", "reader:model-died", "tables:")}
+    ctx.scope = {"allow": ("roundtrip:aux-identity", "roundtrip:identity", "roundtrip:load-raised", "accepted:", "wrong-class:", "reader:incoherent", "reader:hang", "reader:outcome", "reader:model-died", "tables:node-resolution", "tables:read-raised", "tables:save-load-raised")}
     cov = irgen.Cov(ctx)
     enums = protocheck.schema_enums()
     n_rt, n_r, n_f = (40, 60, 25) if ctx.quick else (800, 1500, 400)
